@@ -22,8 +22,17 @@ def slot_sig(a):
     return a["a"]
 
 
+_default_loader = None
+
+
 def check_behaviour(ck, conc, loads, hist, origin, per_step):
+    global _default_loader
     root = docs.root_type(hist)
+    if origin != "public-loads" and not any(a["a"] == "repeated" and a["key"] == "include" for a in hist):
+        # include-free documents go through the default front end (expand_includes=True)
+        if _default_loader is None:
+            _default_loader = impl.loader(expand_includes=True)
+        loads = _default_loader
     steps = range(len(hist) - 1) if per_step else [len(hist) - 1]
     ok = True
     for i in steps:
